@@ -2,7 +2,7 @@ SPECIFICATION Spec
 CONSTANTS
   Scheds <- SchedsBig
   Blocking = {2}
-  MaxNow = 8
+  MaxNow = 7
   MaxStep = 3
   MaxOps = 4
   Variant = "ok"
